@@ -81,6 +81,9 @@ class Tag(object):
     def __getitem__(self, k):
         return Tag(None)
 
+    def __setitem__(self, k, v):
+        pass
+
     def __mro_entries__(self, bases):
         v = unwrap(self)
         return (v,) if isinstance(v, type) else ()
@@ -265,6 +268,8 @@ def shaped_sites(shape):
     """shape leaves are ('@', line, col) sites or nested tuples"""
     if isinstance(shape, tuple) and shape and shape[0] == '@':
         return Tag((shape[1], shape[2]))
+    if shape is None:
+        return Tag(None)
     return tuple(shaped_sites(s) for s in shape)
 
 
@@ -297,6 +302,10 @@ def site_shape_of(t):
         return tuple(site_shape_of(e) for e in t.elts)
     if isinstance(t, ast.Name):
         return ('@', t.lineno, t.col_offset)
+    if isinstance(t, (ast.Attribute, ast.Subscript)):
+        return None         # stores into an object: binds no name
+    if isinstance(t, ast.Starred) and isinstance(t.value, ast.Name):
+        return ('@', t.value.lineno, t.value.col_offset)
     raise Unsupported('comprehension target %s' % type(t).__name__)
 
 
@@ -396,11 +405,26 @@ class Instrument(ast.NodeTransformer):
                 out.append(r)
         return out or [ast.Pass()]
 
+    def target_exprs(self, t):
+        """instrument the reads inside attribute / subscript elements of a target (`f(k).attr, y = ...`, `d[k], v`): they are
+        evaluated when the element is stored"""
+        if isinstance(t, (ast.Tuple, ast.List)):
+            for e in t.elts:
+                self.target_exprs(e)
+        elif isinstance(t, ast.Starred):
+            self.target_exprs(t.value)
+        elif isinstance(t, ast.Attribute):
+            t.value = self.visit(t.value)
+        elif isinstance(t, ast.Subscript):
+            t.value = self.visit(t.value)
+            t.slice = self.visit(t.slice)
+
     # -- statements
     def visit_Assign(self, node):
         node.value = self.visit(node.value)
         names = []
         for t in node.targets:
+            self.target_exprs(t)
             if not all(isinstance(n, ast.Name) for n in target_names(t, [])):
                 raise Unsupported('assignment target')
             target_names(t, names)
@@ -482,6 +506,7 @@ class Instrument(ast.NodeTransformer):
         names = target_names(node.target, [])
         if not all(isinstance(n, ast.Name) for n in names):
             raise Unsupported('for target')
+        self.target_exprs(node.target)
         node.iter = call('IT', const(_enc_shape(shape_of(node.target))), self.visit(node.iter))
         node.body = self.retag([(n.id, site_of(n)) for n in names], 'for') + self.body(node.body)
         node.orelse = self.body(node.orelse) if node.orelse else []
@@ -498,6 +523,8 @@ class Instrument(ast.NodeTransformer):
             names = target_names(it.optional_vars, []) if it.optional_vars is not None else []
             if not all(isinstance(n, ast.Name) for n in names):
                 raise Unsupported('with target')
+            if it.optional_vars is not None:
+                self.target_exprs(it.optional_vars)
             for n in names:
                 self.add_site(site_of(n), n.id, 'with')
             shape = site_shape_of(it.optional_vars) if it.optional_vars is not None else None
